@@ -70,7 +70,7 @@ Definition largest_has_success (m : smap) (scs : list N) : bool :=
 
 Definition pr_viol (scs : list N) (og : Z) (oss : option (list strategy)) (obg : list (option Z)) : verdict :=
   match oss with
-  | None => VViolation 0 "C07:isc-panic-get-strategies"
+  | None => VViolation 0 "C07:isc-get-strategies-panic-or-hang"
   | Some ss =>
     let k := strategies_ok eps (List.length scs) og ss in
     if negb (String.eqb k "") then VViolation 0 k
